@@ -79,10 +79,32 @@ def make_decls(cases, rng, q):
             for b in (1, 3, 10):
                 for sp in ("lit", "expr"):
                     n += 1
+                    # lengths are counted in characters: the same cells also with 2-, 3- and 4-byte characters
+                    cells = []
+                    for ch in (97, 0xE9, 0x65E5, 0x1F600):
+                        cells += [("below", tuple([ch] * (b - 1))), ("at", tuple([ch] * b)), ("above", tuple([ch] * (b + 1)))]
                     decls.append({"id": "m%04d" % n, "fam": "string", "ty": "String", "san": [], "vmode": "std",
-                                  "val": [rule(kind, b, sp)], "traits": TRAITS_STR, "dflt": [],
-                                  "cells": [("below", tuple([97] * (b - 1))), ("at", tuple([97] * b)), ("above", tuple([97] * (b + 1)))]})
-    return decls
+                                  "val": [rule(kind, b, sp)], "traits": TRAITS_STR, "dflt": [], "cells": cells})
+    # the same declarations in company: a second validator that every cell satisfies (the other side far away, `finite`
+    # for floats, the other length bound for strings). The message of the first rule must stay truthful.
+    extra = []
+    for d in decls:
+        k = d["val"][0]["k"]
+        if d["val"][0]["sp"] != "lit" and d["fam"] != "string":
+            continue
+        if d["fam"] == "int":
+            lo, hi = INT_TYPES[d["ty"]]
+            comp = rule("less_or_equal", hi, "lit") if k in ("greater", "greater_or_equal") else rule("greater_or_equal", lo, "lit")
+        elif d["fam"] == "float":
+            comp = rule("finite", 0, "lit")
+        else:
+            comp = rule("len_char_max", d["val"][0]["b"] + 40, "lit") if k == "len_char_min" else rule("len_char_min", 0, "lit")
+        n += 1
+        e = dict(d)
+        e["id"] = "m%04d" % n
+        e["val"] = [d["val"][0], comp]
+        extra.append(e)
+    return decls + extra
 
 
 def check_C16():
